@@ -198,6 +198,11 @@ class ServiceDiscovery(object):
     #
     def enqueue(self, rcvd_pdu):
         with self.llc.lock:
+            if isinstance(rcvd_pdu, pdu.Connect):
+                # service discovery is not a connection-oriented service
+                self.dmpdu.append(pdu.DisconnectedMode(
+                    rcvd_pdu.ssap, rcvd_pdu.dsap, reason=0x02))
+
             if ((isinstance(rcvd_pdu, pdu.ServiceNameLookup)
                  and self.snl is not None)):
 
